@@ -172,6 +172,21 @@ def run_case(case: Dict[str, Any], ctx) -> None:
         R = run_fit(op, U, cfg, constraint, torch.float64, sA, uA, want_grads=False)
         if R.u_exc is None and R.ref_exc is None and R.s_out is not None and not rel_close(A.s_out, R.s_out, tol + 8 * noise_of("A")):
             ctx.violation(key("scalar-differs-from-float64"), f"{case['dtype']}: s={A.s_out!r}, float64: s={R.s_out!r}", cfg=cfg)
+    # the same call with autograd off (evaluation): same values, to rounding of PyTorch's own kernel choice
+    if sA % 3 == 0:
+        try:
+            with torch.no_grad():  # (inference_mode tensors have no version counter for the input sanitizer to read)
+                Ng = run_fit(op, U, cfg, constraint, dtype, sA, uA, want_grads=False)
+            ctx.count("mode:autograd-off-compared")
+            if Ng.u_exc is not None:
+                ctx.violation(key("raises-with-autograd-off:" + exc_key(Ng.u_exc)), repr(Ng.u_exc), cfg=cfg)
+            elif Ng.out_u is not None and A.out_u is not None:
+                sc_ = max(float(A.out_u.detach().abs().max()), 1e-300) if A.out_u.numel() else 1.0
+                if tuple(Ng.out_u.shape) != tuple(A.out_u.shape) or (A.out_u.numel() and float((Ng.out_u.double() - A.out_u.detach().double()).abs().max()) > 8 * tol * sc_):
+                    ctx.violation(key("value-depends-on-grad-mode"), "forward value under no_grad / inference_mode differs from the value with autograd recording", cfg=cfg,
+                                  dtype=case["dtype"])
+        except Exception as e:
+            ctx.violation(key("raises-with-autograd-off:" + exc_key(e)), repr(e), cfg=cfg)
     # repeated call is bit-identical (RNG re-seeded identically for the random ops)
     A2 = run_fit(op, U, cfg, constraint, dtype, sA, uA, want_grads=False)
     ctx.count("repeat:compared")
